@@ -70,7 +70,10 @@ class NormalizingExperimenter(experimenter.Experimenter):
       exptr.evaluate([trial])
       measurement = trial.final_measurement
       for name, metric in (measurement.metrics if measurement else {}).items():
-        metrics[name].append(metric.value)
+        # Infeasible evaluations report NaN; they carry no information about
+        # the scale of the metric.
+        if np.isfinite(metric.value):
+          metrics[name].append(metric.value)
 
     self._norm_means: Dict[str, float] = {}
     self._norm_stds: Dict[str, float] = {}
